@@ -444,6 +444,93 @@ class Ctx:
         out = sym._absorb(out)
         return [set(sym.atom_str(e, v, s) for e, v in cs) for cs in out]
 
+    def true_conditions_raw(self, body):
+        """true_conditions as sets of (expr, value) atoms"""
+        s, pc = self.sym(body)
+        out = set()
+
+        def values(l, want, depth=0):
+            for d in body.defs().get(l, []):
+                blk, i, kind, node = d
+                if body.is_cleanup(blk) or kind not in ("assign", "call"):
+                    continue
+                e = sym.strip_transparent(s._def_expr(d, 0))
+                w = want
+                while e[0] == "not":
+                    e, w = e[1], not w
+                if e[0] == "local" and len(e) == 2 and e[1] != l and depth < 5:
+                    for x in values(e[1], w, depth + 1):
+                        yield x
+                else:
+                    yield blk, e, w
+
+        for blk, e, want in values(0, True):
+            cb = sym._const_bool(e[1]) if e[0] == "const" else None
+            if cb is not None and cb != want:
+                continue
+            for cs in pc.conditions(blk):
+                if cb is not None:
+                    out.add(cs)
+                else:
+                    a = sym.normalise_atom(e, want)
+                    if not any(e2 == a[0] and sym._contradict(v2, a[1]) for (e2, v2) in cs):
+                        out.add(cs | {a})
+        return sym._absorb(out)
+
+    def filtered_table_rows(self, body):
+        """A table written as data: an array literal of tuples that is filtered by a closure before
+        use (`[(flag_a, x), (flag_b, y)].into_iter().filter(|(on, _)| any || *on)`).  For each row:
+        (locals of the tuple's operands, DNF of atom strings under which the row is kept – the
+        closure's own condition with the element's fields replaced by the row's operands).  The
+        if-chain `if any || flag_a { x }` and the table row read the same."""
+        from . import resalg as _ra
+        s, _ = self.sym(body)
+        tuples, arrays = {}, []
+        for blk, i, st in body.stmts():
+            if st["k"] == "assign" and st["r"]["k"] == "aggregate" and not st["p"]["proj"]:
+                if st["r"]["agg"] == "tuple":
+                    tuples[st["p"]["local"]] = st
+                elif st["r"]["agg"] == "array":
+                    arrays.append(st)
+        out = []
+
+        def fold(e):
+            if not isinstance(e, tuple) or not e:
+                return e
+            e = tuple(fold(x) if isinstance(x, tuple) else x for x in e)
+            if e[0] == "field" and isinstance(e[1], tuple) and e[1][0] == "agg" and e[1][1] == "tuple" and str(e[2]).isdigit() and int(e[2]) < len(e[1][2]):
+                return e[1][2][int(e[2])]
+            return e
+
+        for blk, t in self.find_calls(body, r"Iterator(>)?::filter$"):
+            src = sym.strip_transparent(s.operand(t["args"][0]))
+            cl = sym.strip_transparent(s.operand(t["args"][1]))
+            if cl[0] != "closure":
+                continue
+            cb = _ra._closure_body(body.crate, cl[1])
+            if cb is None or cb.local_ty(0) != "bool":
+                continue
+            for st in arrays:
+                ops = [(o.get("p") or {}).get("local") for o in st["r"]["ops"]]
+                if not ops or any(o not in tuples for o in ops):
+                    continue
+                arr = sym.strip_transparent(s.rvalue(st["r"]))
+                if not _ra._has_subterm(src, arr):
+                    continue
+                tc = self.true_conditions_raw(cb)
+                for o in ops:
+                    row = sym.strip_transparent(s.rvalue(tuples[o]["r"]))
+                    dnf = []
+                    for cs in tc:
+                        d = set()
+                        for (e, v) in cs:
+                            e2 = sym.strip_transparent(fold(_ra._subst_closure(e, cl[2], [row])))
+                            a2 = sym.normalise_atom(e2, v) if isinstance(v, bool) else (e2, v)
+                            d.add(sym.atom_str(a2[0], a2[1], s))
+                        dnf.append(d)
+                    out.append(([(x.get("p") or {}).get("local") for x in tuples[o]["r"]["ops"]], dnf))
+        return out
+
     # ------------------------------------------------------------------ event finders
     def find_calls(self, body, callee_rx, include_cleanup=False):
         rx = re.compile(callee_rx)
